@@ -109,7 +109,7 @@ def _source_digest(root, tu):
 def _clang_version():
   try:
     return subprocess.run([_clang(), "--version"], capture_output=True,
-                          text=True, timeout=30).stdout.split("\n")[0]
+                          text=True, timeout=300).stdout.split("\n")[0]
   except Exception as e:  # pylint: disable=broad-except
     raise AnalysisError(f"clang++ not runnable: {e}") from e
 
@@ -153,7 +153,7 @@ def dump_tu(ctx, name):
     cmd = [_clang()] + flags + ["-Xclang", "-ast-dump=json", "-Xclang",
                                 f"-ast-dump-filter={NS}", src]
     try:
-      p = subprocess.run(cmd, capture_output=True, text=True, timeout=300)
+      p = subprocess.run(cmd, capture_output=True, text=True, timeout=900)
     finally:
       if tmpdir:
         shutil.rmtree(tmpdir, ignore_errors=True)
